@@ -654,6 +654,11 @@ impl<'de> Deserializer<'de> {
     {
         self.unroll_type()?;
         self.check_subtype()?;
+        // `empty` is a subtype of every service type but has no values to read.
+        check!(
+            matches!(self.wire_type.as_ref(), TypeInner::Service(_)),
+            "service"
+        );
         let mut bytes = vec![4u8];
         let id = PrincipalBytes::read(&mut self.input)?;
         self.add_cost(std::cmp::max(30, id.len as usize))?;
@@ -666,6 +671,11 @@ impl<'de> Deserializer<'de> {
     {
         self.unroll_type()?;
         self.check_subtype()?;
+        // `empty` is a subtype of every function type but has no values to read.
+        check!(
+            matches!(self.wire_type.as_ref(), TypeInner::Func(_)),
+            "function"
+        );
         if !self.read_bool_val()? {
             return Err(Error::msg("Opaque reference not supported"));
         }
